@@ -1,8 +1,11 @@
 """Translator util.sh -> coq/gen/Gen_Util.v (tables and variants the invocation models C16/C17 depend on).
 
 Extracted by anchored patterns from the function bodies of util.sh:
-  build_id   which of the two known algorithms it is: count+1 (as shipped) or count+1 advanced to the
-             next free suffix (findings/D10_build_id.diff)
+  build_id   which of the three known algorithms it is: count+1 (as shipped), count+1 advanced to the
+             next free suffix (findings/D10_build_id.diff, /repo 70fb0eb), or the largest suffix in use
+             today plus one (findings/D23_build_id_monotone.diff)
+  lock_acquire  its statements as a small program (read the owner, the refusal test, the write) that
+             Inv/LockTie.v interprets and proves equal to the model NameNewDefs.lock_acquire
   log_id     the printf format of the log name (pad width, extension), the dups threshold
   purge      the +1 compensation when not running, `tail -n "+${_n}"`, the whitelist of preserved
              names (find -not \\( -name P -o ... \\) -delete), the attic name transformation tr '-' '/',
@@ -46,6 +49,19 @@ BUILD_ID_FIXED = [
     'printf \'%s.%d\\n\' "${_d}" "${_c}"',
 ]
 
+BUILD_ID_MAX = [
+    '_d="$(date \'+%Y-%m-%d\')"',
+    'for _p in "$1/${_d}".*; do',
+    '_n="${_p##*.}"',
+    'case "${_n}" in',
+    '""|0*|*[!0-9]*) continue;;',
+    'esac',
+    '[ "${_n}" -gt "${_c}" ] && _c="${_n}"',
+    'done',
+    'printf \'%s.%d\\n\' "${_d}" "$((_c + 1))"',
+]
+BUILD_ID_MAX_LOCALS = ['local _c=0', 'local _d', 'local _n', 'local _p']
+
 BUILD_INIT = [
     '_builddir="$1"; : "${_builddir:?}"',
     '_steps="$(step_path "${_builddir}")"',
@@ -73,16 +89,84 @@ def glob_to_coq(pat):
     return '[' + '; '.join(toks) + ']'
 
 
-LOCK_ACQUIRE = [
-    '_rootdir="$1"; : "${_rootdir:?}"',
-    '_builddir="$2"; : "${_builddir:?}"',
-    '_owner="$(cat "${_rootdir}/.running" 2>/dev/null || :)"',
-    'if [ -n "${_owner}" ] && [ "${_owner}" != "${_builddir}" ]; then',
-    'info "${_owner}: lock already acquired"',
-    'return 1',
-    'fi',
-    'echo "${_builddir}" >"${_rootdir}/.running"',
-]
+# ---- lock_acquire as a program.  Every line of the body must be one of the statement forms below; the
+# forms carry what distinguishes one lock discipline from another (which file, which tests joined how,
+# which status, what is written), so an edit of the function changes the generated program - and then
+# Inv/LockTie.v no longer proves it equal to the model - instead of being compared with a fixed text.
+def lock_value(tok):
+    m = {'"${_owner}"': 'VOwner', '"${_builddir}"': 'VBuilddir', '"${_rootdir}"': 'VRootdir'}
+    if tok not in m:
+        raise ValueError('util.sh lock_acquire: operand %r not understood' % tok)
+    return m[tok]
+
+
+def lock_test(t):
+    m = re.fullmatch(r'\[ (-n|-z) (\S+) \]', t)
+    if m:
+        return '(%s %s)' % ('TNonEmpty' if m.group(1) == '-n' else 'TEmpty', lock_value(m.group(2)))
+    m = re.fullmatch(r'\[ (\S+) (!=|=) (\S+) \]', t)
+    if m:
+        return '(%s %s %s)' % ('TNe' if m.group(2) == '!=' else 'TEq', lock_value(m.group(1)), lock_value(m.group(3)))
+    raise ValueError('util.sh lock_acquire: test %r not understood' % t)
+
+
+def lock_cond(c):
+    if ' || ' in c:
+        a, b = c.split(' || ', 1)
+        return '(TOr %s %s)' % (lock_cond(a), lock_cond(b))
+    if ' && ' in c:
+        a, b = c.split(' && ', 1)
+        return '(TAnd %s %s)' % (lock_test(a), lock_cond(b))
+    return lock_test(c)
+
+
+def lock_program(lines):
+    """lines (normalised) -> Coq term of type list lstmt"""
+    def block(i, until):
+        out = []
+        while i < len(lines) and lines[i] not in until:
+            l = lines[i]
+            m = re.fullmatch(r'_(rootdir|builddir)="\$([12])"; : "\$\{_\1:\?\}"', l)
+            if m:
+                if (m.group(1), m.group(2)) not in (('rootdir', '1'), ('builddir', '2')):
+                    raise ValueError('util.sh lock_acquire: arguments swapped: %r' % l)
+                i += 1
+                continue
+            m = re.fullmatch(r'_owner="\$\(cat "\$\{_rootdir\}/([^"/$]+)" 2>/dev/null \|\| :\)"', l)
+            if m:
+                out.append('SReadOwner %s' % coq_bytes(m.group(1)))
+                i += 1
+                continue
+            m = re.fullmatch(r'if (.*); then', l)
+            if m:
+                body, i = block(i + 1, ('fi', 'else'))
+                if lines[i] != 'fi':
+                    raise ValueError('util.sh lock_acquire: if with an else branch')
+                out.append('SIf %s [%s]' % (lock_cond(m.group(1)), '; '.join(body)))
+                i += 1
+                continue
+            if re.fullmatch(r'info "\$\{_owner\}: lock already acquired"', l):
+                out.append('SInfo')
+                i += 1
+                continue
+            m = re.fullmatch(r'return (\d+)', l)
+            if m:
+                out.append('SReturn %s' % m.group(1))
+                i += 1
+                continue
+            m = re.fullmatch(r'echo (\S+) >"\$\{_rootdir\}/([^"/$]+)"', l)
+            if m:
+                out.append('SWriteLine %s %s' % (lock_value(m.group(1)), coq_bytes(m.group(2))))
+                i += 1
+                continue
+            raise ValueError('util.sh lock_acquire: statement %r not understood' % l)
+        return out, i
+    prog, i = block(0, ())
+    if i != len(lines):
+        raise ValueError('util.sh lock_acquire: unbalanced body')
+    return '[' + '; '.join(prog) + ']'
+
+
 ENTRY_SCRIPTS = ['robsd', 'robsd-cross', 'robsd-ports', 'robsd-regress', 'canvas']
 
 
@@ -139,13 +223,20 @@ def generate(repo):
     src = open(os.path.join(repo, 'util.sh')).read()
     out = []
     # ---- build_id
-    b = norm(func_body(src, 'build_id'))
+    raw = func_body(src, 'build_id')
+    b = norm(raw)
     if b == BUILD_ID_ORIG:
-        fixed = False
+        variant = 0
     elif b == BUILD_ID_FIXED:
-        fixed = True
+        variant = 1
+    elif b == BUILD_ID_MAX:
+        # the loop starts from _c=0: the initial value sits on the `local` line, which norm() drops
+        locs = [re.sub(r'\s+', ' ', l.strip()) for l in raw.split('\n') if l.strip().startswith('local ')]
+        if locs != BUILD_ID_MAX_LOCALS:
+            raise ValueError('util.sh build_id: local declarations / initial value of the maximum changed: %r' % locs)
+        variant = 2
     else:
-        raise ValueError('util.sh build_id: body matches neither the count+1 form nor the next-free-suffix form: %r' % b)
+        raise ValueError('util.sh build_id: body matches none of the count+1, next-free-suffix and largest-suffix+1 forms: %r' % b)
     # ---- build_init
     b = norm(func_body(src, 'build_init'))
     if b != BUILD_INIT:
@@ -154,6 +245,10 @@ def generate(repo):
         raise ValueError('util.sh step_path: body changed')
     # ---- log_id
     b = norm(func_body(src, 'log_id'))
+    if b[:-8] != ['while [ $# -gt 0 ]; do', 'case "$1" in', '-b) shift; _builddir="$1";;', '-n) shift; _name="$1";;',
+                  '-s) shift; _step="$1";;', '*) break;;', 'esac', 'shift', 'done', ': "${_name:?}"', ': "${_builddir:?}"',
+                  ': "${_step:?}"']:
+        raise ValueError('util.sh log_id: argument handling changed: %r' % b[:-8])
     tail = b[-8:]
     want_head = ['_name="$(echo "${_name}" | tr \'/\' \'-\')"']
     if tail[0] != want_head[0]:
@@ -181,6 +276,13 @@ def generate(repo):
     comp = int(m.group(1))
     if '_attic="$(config_value keep-dir)"' not in b:
         raise ValueError('util.sh purge: attic directory no longer ${keep-dir}')
+    # everything before the victim selection: option parsing and the three assignments, nothing else
+    head = b[:b.index('if ! config_value builddir >/dev/null 2>&1; then')]
+    if head != ['while [ $# -gt 0 ]; do', 'case "$1" in', '-d) _dry=1;;', '*) break;;', 'esac', 'shift', 'done',
+                '_dir="$1"; : "${_dir:?}"', '_n="$2"; : "${_n:?}"', '_attic="$(config_value keep-dir)"']:
+        raise ValueError('util.sh purge: statements before the victim selection changed: %r' % head)
+    if len(b) != len(head) + 3 + 3 + 7 + (len(re.findall(r"-name '", txt)) + 1) + 7:
+        raise ValueError('util.sh purge: the body holds statements the translator does not account for (%d lines)' % len(b))
     m = re.search(r'find "\$\{_d\}" -mindepth 1 -not \\\( \\\n((?:-name \'[^\']*\' -o \\\n)*-name \'[^\']*\') \\\) -delete', txt)
     if not m:
         raise ValueError('util.sh purge: whitelist find expression changed')
@@ -198,13 +300,14 @@ def generate(repo):
     if after != want2:
         raise ValueError('util.sh purge: move to the attic changed: %r' % after)
     out.append('(* Gen_Util.v - GENERATED by harness/t_util.py from util.sh; do not edit. *)')
-    out.append('From Robsd Require Import Base.Bytes Inv.NameDefs Inv.Glob.')
+    out.append('From Robsd Require Import Base.Bytes Inv.NameDefs Inv.Glob Inv.LockSrc.')
     out.append('Local Open Scope N_scope.')
     out.append('')
-    out.append('(* build_id: %s *)' % ('count+1 advanced to the next free suffix' if fixed else 'count+1'))
-    out.append('Definition build_id_is_fixed : bool := %s.' % ('true' if fixed else 'false'))
-    out.append('Definition build_id_current := %s.' % ('build_id_fixed' if fixed else 'build_id'))
-    out.append('Definition gen_build_id_current := %s.' % ('gen_build_id_fixed' if fixed else 'gen_build_id'))
+    out.append('(* build_id: %s *)' % ['count+1', 'count+1 advanced to the next free suffix',
+                                        'largest suffix in use today + 1'][variant])
+    out.append('Definition build_id_variant : N := %d.' % variant)
+    out.append('Definition build_id_current := %s.' % ['build_id', 'build_id_fixed', 'build_id_max'][variant])
+    out.append('Definition gen_build_id_current := %s.' % ['gen_build_id', 'gen_build_id_fixed', 'gen_build_id_max'][variant])
     out.append('')
     out.append('(* log_id: printf \'%%0%dd-%%s%s\'; suffix when dups > %d *)' % (pad, ext, thr))
     out.append('Definition log_pad_width : nat := %d%%nat.' % pad)
@@ -221,13 +324,11 @@ def generate(repo):
     out.append('Definition purge_attic_tr_to : N := %d.' % ord('/'))
     out.append('')
     b = norm(func_body(src, 'lock_acquire'))
-    if b != LOCK_ACQUIRE:
-        raise ValueError('util.sh lock_acquire: body changed: %r' % b)
     new_invocation_sequence(repo)
-    out.append('(* lock_acquire: refuses iff .running (less trailing newlines) is non-empty and differs from the build directory;')
-    out.append('   the five entry scripts call build_id, build_init, lock_acquire in this order *)')
-    out.append('Definition lock_acquire_compares_owner : bool := true.')
-    out.append('Definition lock_taken_after_build_init : bool := true.')
+    out.append('(* lock_acquire, statement by statement (interpreted by Inv/LockTie.v); the order build_id, build_init,')
+    out.append('   lock_acquire in the five entry scripts is checked by the translator itself (pinned as text) *)')
+    out.append('Definition lock_acquire_src : list lstmt :=')
+    out.append('  %s.' % lock_program(b))
     out.append('')
     cs = clean_script(repo)
     out.append('(* robsd-clean: _keep="${1:-%d}", 0 -> ${keep}, still 0 -> exit %d; keep-attic %d -> purge, otherwise purge -d + rm -rf *)'
